@@ -212,6 +212,15 @@ func (o *oracle) checkDuplicateNames(expr hcl.Expression, v cty.Value, vd hcl.Di
 			// expression mode does what the property says and literal mode does not
 			kind = "duplicate-name-not-rejected"
 		}
+		if kind == "literal-vs-expression-mode-differs" && summaries(vd) == summaries(d2) {
+			if w, ok := stripLeadingBOMDeep(v); ok && rawEqualsFast(w, v2) {
+				// exact cause: expression mode parses every string (and member name) as a
+				// template and hclsyntax.scanTokens strips one leading U+FEFF in every scan
+				// mode; apart from that the two modes agree (same defect as
+				// C16-/C03-json-template-leading-bom)
+				kind = "json-template-leading-bom"
+			}
+		}
 		o.fail(kind, fmt.Sprintf("Value(nil): %s [%s]   Value(ctx): %s [%s]   (no template sequence in any string)", a, summaries(vd), b, summaries(d2)))
 		o.rep.Hist("modes:differ")
 	}
@@ -519,6 +528,49 @@ var c13CorpusDupNames = []string{
 // rawEqualsFast is Value.RawEquals with numbers compared through big.Float.Cmp: cty compares
 // numbers by their full decimal text, which takes minutes for an exponent like 1e99999999 read
 // from a mutated input.
+// stripLeadingBOMDeep removes ONE leading U+FEFF from every string and every attribute name of
+// a JSON-shaped value (strings, numbers, bools, nulls, tuples, objects); ok=false when the value
+// has another shape or two attribute names collide afterwards.
+func stripLeadingBOMDeep(v cty.Value) (cty.Value, bool) {
+	if v.IsMarked() || !v.IsKnown() || v.IsNull() {
+		return v, !v.IsMarked()
+	}
+	ty := v.Type()
+	switch {
+	case ty == cty.String:
+		return cty.StringVal(strings.TrimPrefix(v.AsString(), "\ufeff")), true
+	case ty.IsPrimitiveType():
+		return v, true
+	case ty.IsTupleType():
+		var elems []cty.Value
+		for it := v.ElementIterator(); it.Next(); {
+			_, e := it.Element()
+			w, ok := stripLeadingBOMDeep(e)
+			if !ok {
+				return v, false
+			}
+			elems = append(elems, w)
+		}
+		return cty.TupleVal(elems), true
+	case ty.IsObjectType():
+		attrs := map[string]cty.Value{}
+		for it := v.ElementIterator(); it.Next(); {
+			k, e := it.Element()
+			w, ok := stripLeadingBOMDeep(e)
+			if !ok {
+				return v, false
+			}
+			name := strings.TrimPrefix(k.AsString(), "\ufeff")
+			if _, dup := attrs[name]; dup {
+				return v, false
+			}
+			attrs[name] = w
+		}
+		return cty.ObjectVal(attrs), true
+	}
+	return v, false
+}
+
 func rawEqualsFast(a, b cty.Value) bool {
 	if !a.Type().Equals(b.Type()) || a.IsKnown() != b.IsKnown() || !a.HasSameMarks(b) {
 		return false
